@@ -107,7 +107,7 @@ class _Continue(BaseException):
 
 class Frame:
     overrides = {}   # (module name, global name) -> replacement value (e.g. the unit abstraction for default_units)
-    __slots__ = ("locals", "globals", "parent", "cells", "qualname", "fn_node", "filename", "loop_ordinals", "generator_items")
+    __slots__ = ("locals", "globals", "parent", "cells", "qualname", "fn_node", "filename", "loop_ordinals", "generator_items", "nonlocals")
 
     def __init__(self, globals_, parent=None, cells=None, qualname="?", fn_node=None, filename=None):
         self.locals = {}
@@ -119,6 +119,7 @@ class Frame:
         self.filename = filename
         self.loop_ordinals = None
         self.generator_items = None
+        self.nonlocals = None
 
     def lookup(self, name):
         f = self
@@ -280,6 +281,7 @@ def loop_nodes(fn_node):
     return out
 
 
+NUMPY_UFUNC_SAFE = {"add", "subtract", "multiply", "divide", "true_divide", "power", "negative", "positive", "square"}   # element-wise: the operators themselves
 NUMPY_PROXY_SAFE = {"array", "asarray", "atleast_1d", "atleast_2d", "squeeze", "concatenate", "dot", "sum", "prod", "transpose",
                     "reshape", "ravel", "stack", "vstack", "hstack", "zeros_like", "ones_like", "tile", "reduce", "outer", "diag", "eye"}
 
@@ -339,12 +341,16 @@ class Interp:
             if isinstance(fn, types.MethodType):
                 return con.apply(self, (fn.__self__,) + tuple(args), kwargs)
             return con.apply(self, tuple(args), kwargs)
+        if isinstance(fn, functools._lru_cache_wrapper) and (contains_sym(args) or contains_sym(kwargs)):
+            fn = fn.__wrapped__        # a cache in front of a pure function does not change what it returns
         stub = self.stubs.get(id(fn))
         if stub is None and isinstance(fn, types.BuiltinMethodType) is False:
             stub = self.stubs.get(id(getattr(fn, "__func__", None))) if hasattr(fn, "__func__") else None
             if stub is not None:
+                self.check_stub_signature(stub, (self, fn.__self__) + tuple(args), kwargs)
                 return stub(self, fn.__self__, *args, **kwargs)
         if stub is not None:
+            self.check_stub_signature(stub, (self,) + tuple(args), kwargs)
             return stub(self, *args, **kwargs)
         if isinstance(fn, Closure):
             return self.call_closure(fn, args, kwargs)
@@ -374,6 +380,18 @@ class Interp:
             return self.call_function(callm, (fn,) + tuple(args), kwargs)
         return self.call_external(fn, args, kwargs)
 
+    def check_stub_signature(self, stub, args, kwargs):
+        """a stand-in that does not take the call as the code writes it (e.g. a keyword the stand-in names differently) is a limit of the stand-in,
+        not a TypeError of the code under verification"""
+        try:
+            sig = inspect.signature(stub)
+        except (TypeError, ValueError):
+            return
+        try:
+            sig.bind(*args, **kwargs)
+        except TypeError as ex:
+            raise Unsupported("stand-in %s does not accept this call: %s" % (getattr(stub, "__name__", stub), ex))
+
     def call_external(self, fn, args, kwargs):
         if not (contains_sym(args) or contains_sym(kwargs)):
             return fn(*args, **kwargs)
@@ -383,6 +401,9 @@ class Interp:
             return fn(*args, **kwargs)
         if mod.split(".")[0] == "numpy" and name.split(".")[-1] in NUMPY_PROXY_SAFE:
             return fn(*args, **kwargs)
+        if type(fn).__name__ == "ufunc" and getattr(fn, "__name__", "") in NUMPY_UFUNC_SAFE and not kwargs:
+            import numpy as np
+            return fn(*[np.asarray(a, dtype=object) if isinstance(a, (list, tuple)) and contains_sym(a) else a for a in args])
         if (mod, name) in self.session.proxy_safe or mod.split(".")[0] in ("operator", "_operator", "itertools", "functools", "collections", "copy"):
             return fn(*args, **kwargs)
         cur().havoc_used = True
@@ -529,7 +550,8 @@ class Interp:
                     self.exec_block(node.body, frame)
                 except _Return:
                     pass
-                return list(frame.generator_items) if all(not isinstance(x, _SymYield) for x in frame.generator_items) else _gen_to_seq(frame.generator_items)
+                from .stubs import EngineIter
+                return EngineIter(frame.generator_items) if all(not isinstance(x, _SymYield) for x in frame.generator_items) else _gen_to_seq(frame.generator_items)
             try:
                 self.exec_block(node.body, frame)
             except _Return as r:
@@ -625,6 +647,7 @@ class Interp:
             try:
                 self.exec_block(st.body, frame)
             except Exception as ex:
+                reraise_unsupported(ex)
                 for h in st.handlers:
                     if h.type is None:
                         match = True
@@ -692,7 +715,10 @@ class Interp:
         raise Unsupported("global statement")
 
     def s_Nonlocal(self, st, frame):
-        raise Unsupported("nonlocal statement")
+        # the names are rebound where an enclosing function binds them (see assign)
+        if frame.nonlocals is None:
+            frame.nonlocals = set()
+        frame.nonlocals.update(st.names)
 
     def s_With(self, st, frame):
         # only context managers without symbolic involvement (warnings.catch_warnings, ...)
@@ -787,14 +813,18 @@ class Interp:
             tn, _ = _assigned_names([ast.Assign(targets=[st.target], value=ast.Constant(value=None))])
         else:
             tn = set()
-        shapes = dict(spec.shapes) if spec is not None else {}
+        by_role = spec.shapes if (spec is not None and callable(spec.shapes)) else None      # shapes(name, old) -> new value or None: by role, not by name
+        shapes = dict(spec.shapes) if (spec is not None and by_role is None) else {}
         out = []
         for n in sorted((names | mutated) - tn):
             try:
                 old = frame.lookup(n)
             except NameError:
                 continue
-            if n in shapes:
+            new = by_role(n, old) if by_role is not None else None
+            if new is not None:
+                pass
+            elif n in shapes:
                 new = shapes[n](n, old)
             else:
                 new = fresh_like(old, n)
@@ -816,18 +846,26 @@ class Interp:
         ordinal = self.loop_ordinal(frame, st)
         spec = self.invariants.get((frame.qualname, ordinal))
         if spec is None:
+            # invariant given for a loop by its shape (wherever the loop lives: a helper the loop was moved into, another ordinal)
+            for where, sp in self.invariants.get("@where", []):
+                if where(st, frame, seq):
+                    spec = sp
+                    break
+        if spec is None and self.append_only_loop(st, frame, seq):
+            return
+        if spec is None:
             return self.havoc_loop(st, frame, "for-loop %s#%s over symbolic sequence without invariant" % (frame.qualname, ordinal))
         base = "%s.%s.loop%d" % (self.session.name, spec.label or frame.qualname.split(":")[-1], ordinal)
         n = seq.sym_len()
         spec.used = True
         carried = self.carried_names(st, frame)
-        p.prove(base + ".init", spec.inv(self.inv_env(frame, carried), 0, seq))
+        p.prove(base + ".init", self.eval_inv(spec, base, self.inv_env(frame, carried), 0, seq))
         self.havoc_vars(st, frame, spec)
         i = Sym(z3.Int(fresh_name("i")))
         p.assume(z3.And(to_z3(i) >= 0, to_z3(i) <= to_z3(n)))
         from .spec import add_fold_point
         add_fold_point(p, i)
-        p.assume(to_z3(spec.inv(self.inv_env(frame, carried), i, seq)))
+        p.assume(to_z3(self.eval_inv(spec, base, self.inv_env(frame, carried), i, seq)))
         p.ghost[(frame.qualname, ordinal)] = i
         if p.branch(to_z3(i) < to_z3(n)):
             self.assign(st.target, seq.at(i), frame)
@@ -837,11 +875,56 @@ class Interp:
                 return
             except _Continue:
                 pass
-            p.prove(base + ".pres", spec.inv(self.inv_env(frame, carried), i + 1, seq))
+            p.prove(base + ".pres", self.eval_inv(spec, base, self.inv_env(frame, carried), i + 1, seq))
             raise PathAbort()
         else:
             p.assume(to_z3(i) == to_z3(n))
             self.exec_block(st.orelse, frame)
+
+    def append_only_loop(self, st, frame, seq):
+        """`for x in seq: acc.append(e(x))` with acc a fresh empty list and e not reading acc is the list comprehension [e(x) for x in seq]:
+        handled like one (no invariant needed).  Anything else: not recognised."""
+        if st.orelse or len(st.body) != 1 or not isinstance(st.body[0], ast.Expr):
+            return False
+        call = st.body[0].value
+        if not (isinstance(call, ast.Call) and isinstance(call.func, ast.Attribute) and call.func.attr == "append"
+                and isinstance(call.func.value, ast.Name) and len(call.args) == 1 and not call.keywords and not isinstance(call.args[0], ast.Starred)):
+            return False
+        acc = call.func.value.id
+        targets = {n.id for n in ast.walk(st.target) if isinstance(n, ast.Name)}
+        reads = {n.id for n in ast.walk(call.args[0]) if isinstance(n, ast.Name)}
+        if acc in targets or acc in reads or any(isinstance(n, (ast.NamedExpr, ast.Yield, ast.YieldFrom, ast.Await)) for n in ast.walk(call.args[0])):
+            return False
+        if acc not in frame.locals or type(frame.locals[acc]) is not list or frame.locals[acc]:
+            return False
+        # the list must not be reachable under another name (an alias would not see the rebinding below)
+        probe = []
+        frame.locals["@probe"] = probe
+        aliased = sys.getrefcount(frame.locals[acc]) > sys.getrefcount(frame.locals["@probe"]) - 1
+        del frame.locals["@probe"]
+        if aliased:
+            return False
+        elt = call.args[0]
+
+        def at(i):
+            cframe = Frame(frame.globals, frame, None, frame.qualname, frame.fn_node, frame.filename)
+            self.assign(st.target, seq.at(i), cframe)
+            return self.eval(elt, cframe)
+        frame.locals[acc] = SymSeq(seq.sym_len(), at, "appendloop@%d" % st.lineno)
+        for n in targets:
+            frame.locals[n] = Unknown("loop variable %s after a loop over a symbolic sequence" % n)
+        return True
+
+    def eval_inv(self, spec, base, env, i, seq):
+        """the contract's invariant, evaluated on the loop's state.  An exception raised in there (a local the invariant names is not there any more,
+        an element of another shape than it expects, ...) means the invariant does not fit the loop as it is written now: a stale proof aid (undecided),
+        not a behaviour of the program under verification."""
+        try:
+            return spec.inv(env, i, seq)
+        except (Unsupported, Infeasible, PathAbort):
+            raise
+        except Exception as ex:
+            raise Unsupported("the loop invariant %s does not fit the loop as written (%s: %s)" % (base, type(ex).__name__, str(ex)[:120]))
 
     def symbolic_while(self, st, frame, spec):
         p = cur()
@@ -849,9 +932,9 @@ class Interp:
         base = "%s.%s.loop%d" % (self.session.name, spec.label or frame.qualname.split(":")[-1], ordinal)
         spec.used = True
         carried = self.carried_names(st, frame)
-        p.prove(base + ".init", spec.inv(self.inv_env(frame, carried), None, None))
+        p.prove(base + ".init", self.eval_inv(spec, base, self.inv_env(frame, carried), None, None))
         self.havoc_vars(st, frame, spec)
-        p.assume(to_z3(spec.inv(self.inv_env(frame, carried), None, None)))
+        p.assume(to_z3(self.eval_inv(spec, base, self.inv_env(frame, carried), None, None)))
         variant0 = spec.variant(self.inv_env(frame, carried)) if spec.variant else None
         if self.truth(self.eval(st.test, frame)):
             try:
@@ -860,7 +943,7 @@ class Interp:
                 return
             except _Continue:
                 pass
-            p.prove(base + ".pres", spec.inv(self.inv_env(frame, carried), None, None))
+            p.prove(base + ".pres", self.eval_inv(spec, base, self.inv_env(frame, carried), None, None))
             if variant0 is not None:
                 v1 = spec.variant(self.inv_env(frame, carried))
                 p.prove(base + ".variant", z3.And(to_z3(v1) < to_z3(variant0), to_z3(variant0) >= 0))
@@ -900,8 +983,17 @@ class Interp:
     # ------------------------------------------------------------------ assignment
     def assign(self, target, value, frame):
         if isinstance(target, ast.Name):
-            f = frame
-            # write to the nearest frame that already binds the name only for comprehension frames
+            if frame.nonlocals and target.id in frame.nonlocals:
+                f = frame.parent
+                while f is not None:
+                    if target.id in f.locals:
+                        f.locals[target.id] = value
+                        return
+                    if target.id in f.cells:
+                        f.cells[target.id].cell_contents = value
+                        return
+                    f = f.parent
+                raise Unsupported("nonlocal %s: no enclosing binding found" % target.id)
             frame.locals[target.id] = value
         elif isinstance(target, (ast.Tuple, ast.List)):
             vals = self.unpack(value, len(target.elts), target)
@@ -914,6 +1006,8 @@ class Interp:
         elif isinstance(target, ast.Attribute):
             base = self.eval(target.value, frame)
             self.setattr_(base, self.mangle(target.attr, frame), value)
+        elif isinstance(target, ast.Starred):     # `first, *rest = ...`: unpack() has collected the middle part
+            self.assign(target.value, list(value), frame)
         else:
             raise Unsupported("assignment target %s" % type(target).__name__)
 
@@ -1007,7 +1101,13 @@ class Interp:
         d = {}
         for k, v in zip(node.keys, node.values):
             if k is None:
-                d.update(self.eval(v, frame))
+                m = self.eval(v, frame)
+                if isinstance(m, SymDict):
+                    if d:
+                        raise Unsupported("dict display: **mapping of symbolic size after other entries")
+                    d = m.copy()         # {**m, k: v, ...}: a copy of m with the further entries stored into it
+                else:
+                    d.update(m)
             else:
                 d[self.eval(k, frame)] = self.eval(v, frame)
         return d
@@ -1020,7 +1120,11 @@ class Interp:
             else:
                 val = self.eval(v.value, frame)
                 if contains_sym(val):
-                    parts.append("<sym>")
+                    from .stubs import b_str, OpaqueStr
+                    if v.format_spec is None and v.conversion in (-1, ord("s")) and isinstance(val, Sym):
+                        parts.append(b_str(self, val))      # `{x}` of a symbolic scalar is str(x)
+                    else:
+                        parts.append(OpaqueStr("<sym>"))    # content not modelled (messages); comparing it is outside the subset
                 else:
                     spec = self.eval(v.format_spec, frame) if v.format_spec is not None else ""
                     if v.conversion == ord("r"):
@@ -1028,6 +1132,11 @@ class Interp:
                     elif v.conversion == ord("s"):
                         val = str(val)
                     parts.append(format(val, spec))
+        if any(isinstance(x, Sym) for x in parts):
+            return wrap(z3.simplify(z3.Concat(*[x.e if isinstance(x, Sym) else z3.StringVal(x) for x in parts]))) if len(parts) > 1 else parts[0]
+        if any(type(x).__name__ == "OpaqueStr" for x in parts):
+            from .stubs import OpaqueStr
+            return OpaqueStr("".join(parts))
         return "".join(parts)
 
     def e_FormattedValue(self, node, frame):
@@ -1192,6 +1301,9 @@ class Interp:
             return n != 0 if isinstance(n, int) else wrap(to_z3(n) != 0)
         if isinstance(v, Unknown):
             return bool(v)
+        if getattr(v, "_pyvc_symbolic", False) and hasattr(v, "sym_len") and "__bool__" not in type(v).__dict__:
+            n = v.sym_len()        # python's rule for a container without __bool__: empty is false
+            return n != 0 if isinstance(n, int) else wrap(to_z3(n) != 0)
         return bool(v)
 
     def truth(self, v):
@@ -1215,7 +1327,21 @@ class Interp:
         return val
 
     def e_IfExp(self, node, frame):
-        if self.truth(self.eval(node.test, frame)):
+        test = self.eval(node.test, frame)
+        p = cur()
+        if getattr(p, "bound_hyps", None):
+            c = self.bool_value(test)
+            if isinstance(c, Sym) and p.decide_bound(z3.simplify(c.e)) is None:
+                # inside a term over a bound variable: `a if c else b` is the term ite(c, a, b), each arm evaluated under its guard
+                with p.bound(c.e):
+                    a = self.eval(node.body, frame)
+                with p.bound(z3.Not(c.e)):
+                    b = self.eval(node.orelse, frame)
+                try:
+                    return S.ite(c, a, b)
+                except Exception:
+                    raise Unsupported("conditional expression over the element of a symbolic sequence with non-scalar arms")
+        if self.truth(test):
             return self.eval(node.body, frame)
         return self.eval(node.orelse, frame)
 
@@ -1415,7 +1541,9 @@ class Interp:
         return out
 
     def e_GeneratorExp(self, node, frame):
-        return self.e_ListComp(node, frame)
+        from .stubs import EngineIter
+        r = self.e_ListComp(node, frame)
+        return EngineIter(r) if type(r) is list else r
 
     def e_SetComp(self, node, frame):
         out = []
@@ -1437,6 +1565,13 @@ class Interp:
 
     # ------------------------------------------------------------------ attributes
     def getattr_(self, obj, name):
+        if isinstance(obj, Sym) and not hasattr(obj, name):
+            # a method python's str / int / float has and the symbolic value does not model: a limit of the engine, not an AttributeError of the code
+            real = {"str": str, "int": int, "real": float, "bool": bool}.get(obj.kind)
+            if name == "is_integer" and obj.kind in ("int", "bool"):
+                return lambda: True          # int.is_integer (python >= 3.12): a bound method, always True
+            if real is not None and hasattr(real, name):
+                raise Unsupported("%s.%s on a symbolic value" % (real.__name__, name))
         if isinstance(obj, (Sym, SymSeq, SymDict, Unknown, SymOpt)):
             return getattr(obj, name)
         cls = type(obj)
@@ -1454,6 +1589,18 @@ class Interp:
         mod = sys.modules.get(getattr(cls, "__module__", None))
         f = getattr(mod, "__file__", None)
         return bool(f) and os.path.realpath(f).startswith(self.repo_root + os.sep)
+
+
+def reraise_unsupported(ex):
+    """an exception that a library (numpy, ...) raised because a symbolic value refused a conversion carries the engine's Unsupported in its
+    chain: that is a limit of the engine, not a behaviour of the program under verification"""
+    seen = set()
+    e = ex
+    while e is not None and id(e) not in seen:
+        seen.add(id(e))
+        if isinstance(e, Unsupported):
+            raise Unsupported("%s (surfaced as %s: %s)" % (e, type(ex).__name__, str(ex)[:80]))
+        e = e.__cause__ or e.__context__
 
 
 class _SymComp(BaseException):
